@@ -296,11 +296,18 @@ func (p *Primary) StreamWAL(
 
 	log.Info("Replica registered with address: %s", listenerAddress)
 
+	// The replica asks for the stream starting AT StartSequence (its next expected entry):
+	// what it has acknowledged so far is everything below that number
+	lastAcked := uint64(0)
+	if req.StartSequence > 0 {
+		lastAcked = req.StartSequence - 1
+	}
+
 	session := &ReplicaSession{
 		ID:              sessionID,
 		StartSequence:   req.StartSequence,
 		Stream:          stream,
-		LastAckSequence: req.StartSequence,
+		LastAckSequence: lastAcked,
 		SupportedCodecs: []proto.CompressionCodec{proto.CompressionCodec_NONE},
 		Connected:       true,
 		Active:          true,
@@ -539,9 +546,10 @@ func (p *Primary) broadcastToReplicas(response *proto.WALStreamResponse) {
 			continue
 		}
 
-		// Check if this session has requested entries from a higher sequence
+		// Check if this session has requested entries from a higher sequence (the entry
+		// numbered StartSequence itself is the first one the replica wants)
 		if len(response.Entries) > 0 &&
-			response.Entries[0].SequenceNumber <= session.StartSequence {
+			response.Entries[0].SequenceNumber < session.StartSequence {
 			continue
 		}
 
